@@ -431,6 +431,48 @@ def r15h(F):
 		out.append(Result('15.h', False, 'floor:peer-removal-sites', 'only %d functions removing peers found (expected >= 5)' % n, n))
 	return out
 
+def r15i(F):
+	"""the body buffer is sized as (announced length as usize) + 16: the MAC length is added AFTER widening the u16 length; added in u16
+	it wraps for lengths 65520..=65535 (a legal near-maximum message is never delivered and any handshaken peer can panic the node)"""
+	fn = 'lightning::ln::peer_handler::PeerManager::do_read_event'
+	out = []
+	n = 0
+	for name in F.family(fn):
+		fu = F.func(name)
+		ex = Expr(fu)
+		for b, ci in fu.calls():
+			if not norm(ci.get('f') or '').endswith('Vec::resize') or len(ci['args']) < 2:
+				continue
+			e = ex.of_operand(ci['args'][1])
+			if 'decrypt_length_header' not in expr_str(e):
+				continue
+			n += 1
+			# any arithmetic below a widening cast is done in the narrow type
+			narrow = []
+			def walk(x, under_cast=False):
+				if not isinstance(x, tuple):
+					return
+				if x[0] == 'cast':
+					walk(x[1], True)
+					return
+				if x[0] == 'bin' and x[1].startswith(('Add', 'Mul', 'Sub')) and under_cast:
+					narrow.append(expr_str(x)[-60:])
+				if x[0] == 'call' and (x[1] or '').rsplit('::', 1)[-1] in ('wrapping_add', 'saturating_add', 'checked_add') and under_cast:
+					narrow.append(expr_str(x)[-60:])
+				for y in x[1:]:
+					if isinstance(y, tuple):
+						walk(y, under_cast)
+					elif isinstance(y, list):
+						for z in y:
+							walk(z, under_cast)
+			walk(e)
+			terms, k = linear(e)
+			ok = not narrow and k == 16 and len(terms) == 1
+			out.append(Result('15.i', ok, ('ok:' if ok else 'width:') + 'body-buffer-size', 'do_read_event: the read buffer for a message body is resized to `%s` (expected (length as usize) + 16, the addition in usize)%s' % (expr_str(e)[-70:], '' if not narrow else ' - arithmetic in the narrow type: %s' % narrow), 1, where=None if ok else F.where(name, fu.line_of(b))))
+	if n == 0:
+		out.append(Result('15.i', False, 'anchor:body-buffer-size', 'do_read_event: no resize of the read buffer from the decrypted length header found', where=F.where(fn)))
+	return out
+
 RULES = [
 	('15.a', 'nothing is handed to the handlers before Init; second Init / non-Init first message / handler refusal end in Err', r15a),
 	('15.b', 'protocol handler methods are reached only downstream of the Init gate', r15b),
@@ -442,4 +484,6 @@ RULES = [
 	('15.e', 'messages are encrypted / decrypted only in NoiseState::Finished, entered only by an authenticated act', r15e),
 	('15.p', 'same-name field transfer: structs carrying this property\'s quantities are filled from the same-named field or a reviewed alias (rules/provenance.py)', lambda F: provenance.for_property(F, 'C15', '15.p')),
 	('15.q', 'no call hands a value named like one parameter of the callee to a different parameter (swapped type-compatible arguments; rules/provenance.py)', lambda F: provenance.swaps_for_property(F, 'C15', '15.q')),
+	('15.i', 'the message-body buffer size is computed in usize (length widened before the MAC length is added)', r15i),
+	('15.w', 'no length / count is added to or multiplied in an 8/16-bit type and widened afterwards (wrap-around at the top of the range; rules/provenance.py)', lambda F: provenance.narrow_for_property(F, 'C15', '15.w')),
 ]
